@@ -83,7 +83,7 @@ Definition reason_code (r : reason) : nat :=
   match r with
   | RFeeder => 1 | RNotActive => 2 | RNoPrevote => 3 | RPeriod => 4 | RParse => 5
   | RUnknownPair => 6 | RHash => 7 | RBadHash => 8 | RNoValidator => 9 | RUnauthorized => 10
-  | RMalformed => 11 | ROther => 0
+  | RMalformed => 11 | RInvalidParams => 12 | ROther => 0
   end.
 
 Definition reason_in (r : reason) (rs : list reason) : bool :=
